@@ -287,6 +287,35 @@ def judge_case(c, part):
             o1 = []
             judge_unit(sysname, None, *BUILTIN[sysname], uname, c["vals"], part, o1, sysname + "+code-units", reg=reg)
             out += [(k.replace("C10:", "C10:code-units:", 1), d) for k, d in o1]
+    # ... and in a private registry that gives the symbols the target systems are made of (and the ones the quantity is written
+    # in) other sizes: the answer is computed with, and stays in, the quantity's own registry
+    reg2 = UnitRegistry()
+    for k_, sym in enumerate(("Msun", "pc", "yr", "g", "m", "s", "K", "erg", "J", "lb", "ft", "AU", "Mearth")):
+        try:
+            reg2.modify(sym, float(reg2.lut[sym][0]) * (1.5 + 0.25 * ((k_ + int(abs(c["vals"][0]) * 8)) % 5)))
+        except Exception:
+            part.count("modify refused")
+    pool_ = ("Msun", "kpc", "km", "g/cm**3", "Msun/kpc**3", "J", "erg/s", "lb*ft/s**2", "AU/yr", "Mearth*m**2/s**2", "K*s")
+    k0 = int(abs(c["vals"][1]) * 8) % len(pool_)
+    for uname in (pool_[k0], pool_[(k0 + 4) % len(pool_)], pool_[(k0 + 7) % len(pool_)]):
+        for sysname in ("cgs", "mks", "galactic", "imperial", "solar"):
+            o1 = []
+            judge_unit(sysname, None, *BUILTIN[sysname], uname, c["vals"], part, o1, sysname + "+rescaled-symbols", reg=reg2)
+            out += [(k.replace("C10:", "C10:rescaled-symbols:", 1), d) for k, d in o1]
+            # the numbers: the same quantity converted by name in its own registry
+            try:
+                x_ = unyt_array(np.array(c["vals"], dtype=float), uname, registry=reg2)
+                r_ = x_.in_base(sysname)
+                part.ev()
+                want = x_.to(str(r_.units))
+                if want.units.registry is not reg2 and getattr(want.units.registry, "lut", None) is not reg2.lut:
+                    continue
+                if not np.allclose(np.asarray(r_), np.asarray(want), rtol=1e-12, atol=0):
+                    out.append(("C10:rescaled-symbols:in_base-differs-from-conversion-by-name", {"system": sysname, "unit": uname, "in_base": repr(r_)[:100], "to(same unit string)": repr(want)[:100]}))
+                else:
+                    part.nt(("rescaled-symbols", sysname, uname))
+            except Exception:
+                pass
     # the same name defined again with other base units: the name now means the new definition
     live_spec = spec
     if c.get("spec2") is not None:
